@@ -710,6 +710,18 @@ Section Proofs.
       now apply (convert_general_is_projection src tgt v n tails).
   Qed.
 
+  (* every well-formed value: the fuel of the assembler is the bound of the value *)
+  Theorem convert_is_projection_wf src tgt (v : value) tails :
+    compat src tgt = true -> wf_nschema src -> wf_nschema tgt -> wf (erase src) v ->
+    length tails = nl tgt -> heads_le V 0 tails ->
+    exists fuel cols, convert_columns V zero src tgt (shred_row (erase src) v) = Some cols /\
+      asm (erase tgt) 0 0 fuel (zipapp cols tails) = Some (project src tgt v, tails).
+  Proof.
+    intros Hc Hs Ht Hv Hl Hh.
+    destruct (convert_is_projection src tgt v (vbound V v) tails Hc Hs Ht (wf_wfn V _ _ Hv) Hl Hh) as (cols & H1 & H2).
+    exists (S (vbound V v)), cols. split; assumption.
+  Qed.
+
   (* sequences of rows: count and order *)
   Definition concat_rows (width : nat) (rows : list (list column)) : list column :=
     fold_right zipapp (repeat [] width) rows.
